@@ -1483,3 +1483,31 @@ def fwd_param_pattern(x):
     if isinstance(x, (tuple, list)):
         return any(fwd_param_pattern(y) for y in x)
     return False
+
+
+def dowhile_to_while(x, ctr=None):
+    """do S while (c)  ==>  { var $f = true; while ($f || c) { $f = false; S } }   (same completion value, same
+    continue/break behaviour); used to attribute failures to the known do-while completion-value defect."""
+    if ctr is None:
+        ctr = [0]
+    if isinstance(x, list):
+        return [dowhile_to_while(y, ctr) for y in x]
+    if isinstance(x, dict):
+        return {k: dowhile_to_while(v, ctr) if k in ('body', 'params') else v for k, v in x.items()}
+    if not isinstance(x, tuple) or not x:
+        return x
+
+    def conv(d, label):
+        ctr[0] += 1
+        f = 'dwf_%d' % ctr[0]
+        body = dowhile_to_while(d[1], ctr)
+        w = ('while', ('logic', 'or', ('var', f), dowhile_to_while(d[2], ctr)),
+             ('block', [('expr', ('assign', f, ('bool', False))), body]))
+        if label:
+            w = ('label', label, w)
+        return ('block', [('decl', 'var', [('d', f, ('bool', True))]), w])
+    if x[0] == 'label' and isinstance(x[2], tuple) and x[2] and x[2][0] == 'do':
+        return conv(x[2], x[1])
+    if x[0] == 'do':
+        return conv(x, None)
+    return tuple(dowhile_to_while(z, ctr) if isinstance(z, (tuple, list, dict)) else z for z in x)
